@@ -44,38 +44,6 @@ pub fn control_placement_programs() -> Vec<String> {
             out.push(format!("{prelude}{l}; x := {{ {s}; 5 }}; *k"));
         }
     }
-    // compound assignments whose result is wider than the cell's declared type
-    let compound = [
-        ("[int]", "[1]", "[2.5]", "(*c)[1] + 1"),
-        ("[int]", "[1]", "[\"s\"]", "(*c)[1] + 1"),
-        ("[int]", "[1]", "[()]", "(*c)[1] + 1"),
-        ("[int]", "[1]", "[[2]]", "(*c)[1] + 1"),
-        ("[string]", "[\"a\"]", "[1]", "(*c)[1] + \"b\""),
-        ("[[int]]", "[[1]]", "[[\"s\"]]", "(*c)[1][0] + 1"),
-        ("[float]", "[1.5]", "[1]", "(*c)[1] * 2.0"),
-        ("int", "5", "2.5", "*c + 1"),
-        ("int", "5", "\"s\"", "*c + 1"),
-        ("int", "5", "[1]", "*c + 1"),
-        ("float", "1.5", "2", "*c * 2.0"),
-        ("float", "1.5", "[2.5]", "*c * 2.0"),
-        ("string", "\"a\"", "[\"b\"]", "*c + \"b\""),
-        ("bool", "true", "1", "!*c"),
-    ];
-    for (t, v, w, usage) in compound {
-        for op in ["+=", "-=", "*=", "/=", "%=", "**=", "&=", "|=", "^=", "<<=", ">>=", "="] {
-            out.push(format!("c := mut {t} {v}; c {op} {w}; {usage}"));
-            out.push(format!("c := mut {t} {v}; upd := (m: mut {t}, w: any) {{ if x: any = w {{ m {op} {w}; }}; }}; upd(c, 0); {usage}"));
-        }
-        out.push(format!("c := mut {t} {v}; d := c; d += {w}; {usage}"));
-        out.push(format!("c := mut {t} {v}; for w in [{w}]~ {{ c += w; }}; {usage}"));
-    }
-    // each program once more with the cell itself as the result, so that its content is judged
-    // against its declared type even when the use above fails or is folded away
-    let with_cell: Vec<String> =
-        out.iter().filter(|p| p.starts_with("c := mut")).filter_map(|p| p.rsplit_once("; ").map(|(head, _)| format!("{head}; c"))).collect();
-    out.extend(with_cell);
-    out.sort();
-    out.dedup();
     out
 }
 
@@ -208,6 +176,51 @@ pub fn cell_widening_programs() -> Vec<String> {
         // iterator of cells
         out.push(format!("c := mut {t1} {v1}; for m in [c]~ {{ if w: {wide} = m {{ w = {v2}; }}; }}; {usage}"));
     }
+    // cells created without a declared type from a value whose static type is a union: the cell is a
+    // `mut (A|B)` whatever the initial value turns out to be (also when it is folded or captured)
+    for (t1, v1, t2, v2, _) in kinds {
+        for last in ["c", "(c, *c)", "if k: mut {t1} = c { 1 } else { 0 }"] {
+            let last = last.replace("{t1}", t1);
+            out.push(format!("x := if true {{ {v1} }} else {{ {v2} }}; c := mut x; c = {v2}; {last}"));
+            out.push(format!("x := [{v1}, {v2}][0]; c := mut x; c = {v2}; {last}"));
+            out.push(format!("pick := (b: bool) -> {t1}|{t2} {{ if b {{ return {v1}; }} return {v2}; }}; x := pick(true); mk := () -> mut ({t1}|{t2}) {{ return mut x; }}; c := mk(); c = {v2}; {last}"));
+            out.push(format!("f := (x: {t1}|{t2}) -> mut ({t1}|{t2}) {{ return mut x; }}; c := f({v1}); c = {v2}; {last}"));
+            out.push(format!("f := (x: {t1}|{t2}) -> any {{ c := mut x; c = {v2}; return {last}; }}; f({v1})"));
+            out.push(format!("x := if true {{ {v1} }} else {{ {v2} }}; cs := [mut x, mut x]; cs[0] = {v2}; cs"));
+        }
+    }
+    // compound assignments whose result is wider than the cell's declared type
+    let compound = [
+        ("[int]", "[1]", "[2.5]", "(*c)[1] + 1"),
+        ("[int]", "[1]", "[\"s\"]", "(*c)[1] + 1"),
+        ("[int]", "[1]", "[()]", "(*c)[1] + 1"),
+        ("[int]", "[1]", "[[2]]", "(*c)[1] + 1"),
+        ("[string]", "[\"a\"]", "[1]", "(*c)[1] + \"b\""),
+        ("[[int]]", "[[1]]", "[[\"s\"]]", "(*c)[1][0] + 1"),
+        ("[float]", "[1.5]", "[1]", "(*c)[1] * 2.0"),
+        ("int", "5", "2.5", "*c + 1"),
+        ("int", "5", "\"s\"", "*c + 1"),
+        ("int", "5", "[1]", "*c + 1"),
+        ("float", "1.5", "2", "*c * 2.0"),
+        ("float", "1.5", "[2.5]", "*c * 2.0"),
+        ("string", "\"a\"", "[\"b\"]", "*c + \"b\""),
+        ("bool", "true", "1", "!*c"),
+    ];
+    for (t, v, w, usage) in compound {
+        for op in ["+=", "-=", "*=", "/=", "%=", "**=", "&=", "|=", "^=", "<<=", ">>=", "="] {
+            out.push(format!("c := mut {t} {v}; c {op} {w}; {usage}"));
+            out.push(format!("c := mut {t} {v}; upd := (m: mut {t}, w: any) {{ if x: any = w {{ m {op} {w}; }}; }}; upd(c, 0); {usage}"));
+        }
+        out.push(format!("c := mut {t} {v}; d := c; d += {w}; {usage}"));
+        out.push(format!("c := mut {t} {v}; for w in [{w}]~ {{ c += w; }}; {usage}"));
+    }
+    // each program once more with the cell itself as the result, so that its content is judged
+    // against its declared type even when the use above fails or is folded away
+    let with_cell: Vec<String> =
+        out.iter().filter(|p| p.starts_with("c := mut")).filter_map(|p| p.rsplit_once("; ").map(|(head, _)| format!("{head}; c"))).collect();
+    out.extend(with_cell);
+    out.sort();
+    out.dedup();
     out
 }
 
